@@ -1,29 +1,25 @@
 #!/bin/sh
 # tools/seed_eval.sh <PID>_<K> [tier] -- confirm a stored seeded change in a scratch worktree of /repo HEAD
-# (tests green with it, demo passes without / fails with), then run ./check <PID> against /repo with the patch
-# applied and undo it.  Uses patch_rebased.diff when present.
+# (tests green with it, demo passes without / fails with), then run ./check <PID> against that patched worktree
+# (VERIF_REPO) and remove it.  Uses patch_rebased.diff when present.  /repo itself is never modified.
 ID=$1; TIER=${2:-quick}; PID=${ID%%_*}
 D=/verif/seeded/$ID
 P=$D/patch.diff; [ -f $D/patch_rebased.diff ] && P=$D/patch_rebased.diff
 WT=/tmp/wt_eval_$ID
 cd /repo || exit 2
-git diff --quiet || { echo "/repo not clean"; exit 2; }
 git worktree add -q --detach $WT HEAD || exit 2
 cd $WT
-PYTHONPATH=$WT /venv/bin/python $D/demo.py >/tmp/seed_demo_clean.out 2>&1; RC_CLEAN=$?
+PYTHONPATH=$WT /venv/bin/python $D/demo.py >/tmp/seed_demo_clean_$ID.out 2>&1; RC_CLEAN=$?
 if git apply $P 2>/dev/null; then
-  /venv/bin/python -m pytest -q -p no:cacheprovider -x >/tmp/seed_tests.out 2>&1; RC_TESTS=$?
-  PYTHONPATH=$WT /venv/bin/python $D/demo.py >/tmp/seed_demo_patched.out 2>&1; RC_PATCHED=$?
-  APPLIES=1
+  /venv/bin/python -m pytest -q -p no:cacheprovider -x >/tmp/seed_tests_$ID.out 2>&1; RC_TESTS=$?
+  PYTHONPATH=$WT /venv/bin/python $D/demo.py >/tmp/seed_demo_patched_$ID.out 2>&1; RC_PATCHED=$?
+  echo "$ID confirm: demo clean rc=$RC_CLEAN, tests with patch rc=$RC_TESTS ($(tail -1 /tmp/seed_tests_$ID.out 2>/dev/null)), demo patched rc=$RC_PATCHED"
+  mkdir -p /verif/.work/seed_$ID
+  cd /verif && VERIF_REPO=$WT ./check $PID --tier $TIER > /tmp/seed_check_$ID.out 2>&1; RC=$?
+  echo "$ID: check $PID ($TIER) on patched tree: rc=$RC"
+  grep -E "^VIOLATION|signature:|MACHINERY" /tmp/seed_check_$ID.out | head -6
+  echo "{\"confirm\": {\"demo_clean_rc\": $RC_CLEAN, \"tests_with_patch_rc\": $RC_TESTS, \"demo_patched_rc\": $RC_PATCHED}, \"check_rc\": $RC, \"tier\": \"$TIER\", \"patch\": \"$(basename $P)\"}" > $D/result.json
 else
-  APPLIES=0; RC_TESTS=-1; RC_PATCHED=-1
+  echo "$ID: patch does not apply to HEAD (needs patch_rebased.diff)"
 fi
 cd /repo && git worktree remove --force $WT
-echo "$ID confirm: applies=$APPLIES demo clean rc=$RC_CLEAN, tests with patch rc=$RC_TESTS ($(tail -1 /tmp/seed_tests.out 2>/dev/null)), demo patched rc=$RC_PATCHED"
-[ $APPLIES = 1 ] || { echo "patch does not apply to HEAD (needs patch_rebased.diff)"; exit 3; }
-git apply $P || exit 3
-cd /verif && ./check $PID --tier $TIER > /tmp/seed_check_$ID.out 2>&1; RC=$?
-cd /repo && git checkout -q -- .
-echo "$ID: check $PID ($TIER) on patched /repo: rc=$RC"
-grep -E "^VIOLATION|signature:|MACHINERY" /tmp/seed_check_$ID.out | head -6
-echo "{\"confirm\": {\"demo_clean_rc\": $RC_CLEAN, \"tests_with_patch_rc\": $RC_TESTS, \"demo_patched_rc\": $RC_PATCHED}, \"check_rc\": $RC, \"tier\": \"$TIER\", \"patch\": \"$(basename $P)\"}" > $D/result.json
